@@ -162,4 +162,36 @@ func TestC01(t *testing.T) {
 		}
 	}
 	report(t, r2)
+	// the same predicates read the same rows when the query is written in the double-quoted style under
+	// PostgresEscapingDialect, also when a string constant holds an escaped quote followed by double quotes
+	r3 := &result{Property: "C01", Name: "predicates-under-the-quoting-dialect", Bound: "8 predicates with string constants holding \\', '' and double quotes, each in the double-quoted style under PostgresEscapingDialect against the backtick style without it"}
+	pdoc := map[string]any{"p": []any{
+		map[string]any{"id": 1.0, "name": "it's \"ok\"", "age": 30.0},
+		map[string]any{"id": 2.0, "name": "it's " + "`" + "ok" + "`", "age": 50.0},
+		map[string]any{"id": 3.0, "name": "it's", "age": 40.0},
+		map[string]any{"id": 4.0, "name": "other", "age": 20.0},
+	}}
+	for _, pred := range []string{
+		`%[1]sname%[1]s = 'it\'s "ok"'`, `%[1]sname%[1]s != 'it\'s "ok"'`, `%[1]sname%[1]s IN ('other', 'it\'s "ok"')`, `%[1]sname%[1]s LIKE 'it\'s "o_"'`,
+		`%[1]sname%[1]s = 'it\'s' OR %[1]sage%[1]s > 35`, `%[1]sname%[1]s != 'it\'s' AND %[1]sage%[1]s BETWEEN 20 AND 40`, `%[1]sname%[1]s = 'it''s' OR %[1]sage%[1]s > 45`, `NOT %[1]sname%[1]s = 'it\'s "ok"'`,
+	} {
+		r3.Cases++
+		run := func(q string, opts ...genql.QueryOption) (string, error) {
+			qq, err := genql.New(pdoc, q, opts...)
+			if err != nil {
+				return "", err
+			}
+			rs, err := qq.Exec()
+			if err != nil {
+				return "", err
+			}
+			return fmt.Sprint(rs), nil
+		}
+		a, e1 := run(fmt.Sprintf("SELECT id FROM %[1]sp%[1]s WHERE "+pred, `"`), genql.PostgresEscapingDialect())
+		b, e2 := run(fmt.Sprintf("SELECT id FROM %[1]sp%[1]s WHERE "+pred, "`"))
+		if (e1 == nil) != (e2 == nil) || a != b {
+			r3.violate("WHERE "+pred+": double-quoted under the option %s (%v), backtick style %s (%v)", `"`, a, e1, b, e2)
+		}
+	}
+	report(t, r3)
 }
